@@ -25,4 +25,57 @@ def regenerate(repo, gen_dir):
     else:
         raise RuntimeError("cannot evaluate threshold expression %r" % expr)
     content = "/-! Regenerated from /repo by tools/gen_from_source.py on every run. Do not edit. -/\n\nnamespace Crusta.Gen\n\n/-- `DEFENDER_SETS_PROD_THRESHOLD` in `encodings/hybrid_complete_constraints_encoder.rs` -/\ndef hybridThreshold : Nat := %d\n\nend Crusta.Gen\n" % thr
-    return write_if_changed(os.path.join(gen_dir, "Constants.lean"), content)
+    ch = write_if_changed(os.path.join(gen_dir, "Constants.lean"), content)
+    ch2 = gen_unicode(repo, gen_dir)
+    return ch or ch2
+
+
+def parse_char(tok):
+    tok = tok.strip()
+    assert tok[0] == "'" and tok[-1] == "'", tok
+    body = tok[1:-1]
+    if body.startswith("\\u{"):
+        return int(body[3:-1], 16)
+    esc = {"\\t": 9, "\\n": 10, "\\r": 13, "\\\\": 92, "\\'": 39, "\\0": 0}
+    if body in esc:
+        return esc[body]
+    assert len(body) == 1, body
+    return ord(body)
+
+
+def parse_table(path, name):
+    src = open(path, encoding="utf-8").read()
+    m = re.search(r"pub const %s: &'static \[\(char, char\)\] = &\[(.*?)\];" % name, src, re.S)
+    if not m:
+        raise RuntimeError("table %s not found in %s" % (name, path))
+    ranges = []
+    for a, b in re.findall(r"\(('(?:\\.[^']*|[^'\\])')\s*,\s*('(?:\\.[^']*|[^'\\])')\)", m.group(1)):
+        ranges.append((parse_char(a), parse_char(b)))
+    if not ranges:
+        raise RuntimeError("empty table %s" % name)
+    return ranges
+
+
+def gen_unicode(repo, gen_dir):
+    lock = open(os.path.join(repo, "Cargo.lock")).read()
+    m = re.search(r'name = "regex-syntax"\nversion = "([^"]+)"', lock)
+    if not m:
+        raise RuntimeError("regex-syntax not in Cargo.lock")
+    ver = m.group(1)
+    import glob
+    cands = glob.glob(os.path.expanduser("~/.cargo/registry/src/*/regex-syntax-%s/src/unicode_tables" % ver))
+    if not cands:
+        raise RuntimeError("vendored regex-syntax-%s not found" % ver)
+    d = cands[0]
+    ws = parse_table(os.path.join(d, "perl_space.rs"), "WHITE_SPACE")
+    dn = parse_table(os.path.join(d, "perl_decimal.rs"), "DECIMAL_NUMBER")
+
+    def fmt(rs):
+        return "[" + ", ".join("(%d, %d)" % r for r in rs) + "]"
+    content = ("/-! Regenerated from the vendored regex-syntax-%s tables (the version named by /repo/Cargo.lock)\n"
+               "by tools/gen_from_source.py on every run. Do not edit. -/\n\nnamespace Crusta.Gen\n\n"
+               "/-- `\\s` of the regex crate = Unicode White_Space (also `char::is_whitespace`) -/\n"
+               "def whiteSpaceRanges : List (Nat × Nat) := %s\n\n"
+               "/-- `\\d` of the regex crate = Unicode Decimal_Number -/\n"
+               "def decimalRanges : List (Nat × Nat) := %s\n\nend Crusta.Gen\n") % (ver, fmt(ws), fmt(dn))
+    return write_if_changed(os.path.join(gen_dir, "Unicode.lean"), content)
